@@ -188,11 +188,15 @@ def run_prerequisite(ctx: Ctx, src_prop: str, allow: T.Iterable[str], alias: str
     while isinstance(root, SubCtx):
         root = root._p
     if src_prop in _PREREQ_ACTIVE or src_prop == getattr(root, "prop", None):
+        for fr in _REC_FRAMES:
+            fr[0].add(src_prop)
         return 0          # mutual imports (C18 <-> C19): the property that is already being decided is not entered again
+    for fr in _REC_FRAMES:
+        fr[1].add(src_prop)
     sub = SubCtx(ctx, src_prop, allow, alias, only)
     _PREREQ_ACTIVE.append(src_prop)
     try:
-        mod.run(sub)
+        _replay(root, ctx, mod, src_prop, sub)
     except AnalysisError:
         # The source check gave up.  That is of no concern only when it happened in a rule that is not imported: every
         # imported rule was reached and the obligation recorded last belongs to another rule.  Otherwise an imported rule
@@ -211,6 +215,70 @@ def run_prerequisite(ctx: Ctx, src_prop: str, allow: T.Iterable[str], alias: str
 
 
 _PREREQ_ACTIVE: T.List[str] = []
+_REC_FRAMES: T.List[T.Tuple[T.Set[str], T.Set[str]]] = []          # per running recording: (imports skipped by the guard, imports entered)
+
+
+class _Recorder(SubCtx):
+    """Runs a source check once and records every obligation, finding and floor it produces (whatever their rule), so that
+    several imports of the same check - with different rule selections - replay the one run."""
+
+    def __init__(self, parent: T.Any, src_prop: str):
+        SubCtx.__init__(self, parent, src_prop, (), "")
+        self.events: T.List[T.Tuple[T.Any, ...]] = []
+        self.floor_failed = False
+        # what a check may read back of its own run (C06 counts its obligations, C03 looks for findings of a rule)
+        self.obligations: T.List[T.Dict[str, T.Any]] = []
+        self.findings: T.List[Finding] = []
+
+    def ok(self, rule: str, what: str) -> None:
+        self.events.append(("ok", rule, what))
+        self.obligations.append({"rule": f"{self._src}/{rule}", "what": what, "ok": True})
+
+    def bad(self, rule: str, key: str, message: str, loc: str = "", witness: T.Any = None,
+            path: T.Optional[T.List[str]] = None, what: T.Optional[str] = None) -> None:
+        self.events.append(("bad", rule, key, message, loc, witness, path, what))
+        self.obligations.append({"rule": f"{self._src}/{rule}", "what": what or key, "ok": False})
+        self.findings.append(Finding(f"{self._src}/{rule}", f"{self._src}/{rule} {key}", message, loc, witness, path))
+
+    def floor(self, rule: str, what: str, count: int, minimum: int) -> None:
+        self.events.append(("floor", rule, what, count, minimum))
+        if count < minimum:
+            self.floor_failed = True          # an import that selects this rule stops here when it replays; the others go on
+
+
+def _replay(root: T.Any, ctx: T.Any, mod: T.Any, src_prop: str, sub: SubCtx) -> None:
+    cache = root.__dict__.setdefault("_prereq_cache", {}) if hasattr(root, "__dict__") else {}
+    # what a run of the source check records depends on the importer only through the mutual-import guard: a recorded run is
+    # reused when every import it skipped is blocked now as well and none of those it entered is
+    blocked = (set(_PREREQ_ACTIVE) | {getattr(root, "prop", None)}) - {src_prop}
+    entry = next(((ev_, er_) for sk_, en_, ev_, er_ in cache.get(src_prop, []) if sk_ <= blocked and not (en_ & blocked)), None)
+    if entry is None:
+        rec = _Recorder(ctx, src_prop)
+        frame: T.Tuple[T.Set[str], T.Set[str]] = (set(), set())
+        _REC_FRAMES.append(frame)
+        err: T.Optional[str] = None
+        try:
+            mod.run(rec)
+        except AnalysisError as ex:
+            err = str(ex)
+        except Exception:
+            if not rec.floor_failed:
+                raise
+            err = "the source check cannot go on after a floor that failed"          # code behind a failed floor relies on it
+        finally:
+            _REC_FRAMES.pop()
+        entry = (rec.events, err)
+        cache.setdefault(src_prop, []).append((frame[0], frame[1], rec.events, err))
+    events, err = entry
+    for ev in events:
+        if ev[0] == "ok":
+            sub.ok(ev[1], ev[2])
+        elif ev[0] == "bad":
+            sub.bad(ev[1], ev[2], ev[3], ev[4], ev[5], ev[6], what=ev[7])
+        else:
+            sub.floor(ev[1], ev[2], ev[3], ev[4])
+    if err is not None:
+        raise AnalysisError(err)
 
 
 def load_known() -> T.List[T.Dict[str, T.Any]]:
